@@ -192,3 +192,118 @@ func VerifRetryPacing() {
 	}
 	verifReach("paced")
 }
+
+// VerifBatchPacing: a batch of two calls on one server; in every round each call is answered
+// from an arbitrary script over {ok, retry-later, connection-dead, not-serving}: a round in
+// which any call was told to retry later is followed by a wait before the next round.
+func VerifBatchPacing() {
+	c := vNewRootClient()
+	establishRegionOverride = func(reg hrpc.RegionInfo, addr string) {}
+	vRetryReg = vMkRegion(0, 1, nil, nil)
+	rc := &vRoundRC{}
+	rc.addr = "rs0:1"
+	vRetryEnv2 = rc
+	sleepAndIncreaseBackoffOverride = func(ctx context.Context, b time.Duration) (time.Duration, error) {
+		rc.sleeps = append(rc.sleeps, b)
+		return b * 2, nil
+	}
+	rc.budget = verifParam("ATTEMPTS")
+	vals := map[string]map[string][]byte{"f": {"q": []byte("v")}}
+	p1, _ := hrpc.NewPut(context.Background(), []byte("t"), []byte("a"), vals)
+	p2, _ := hrpc.NewPut(context.Background(), []byte("t"), []byte("b"), vals)
+	_, ok := c.SendBatch(context.Background(), []hrpc.Call{p1, p2})
+	verifQuiesce()
+	establishRegionOverride, sleepAndIncreaseBackoffOverride = nil, nil
+	verifAssert(ok, "the batch succeeds once the region answers")
+	for i := 0; i+1 < len(rc.rounds); i++ {
+		waited := rc.rounds[i+1].waitsBefore - rc.rounds[i].waitsBefore
+		if rc.rounds[i].retryLater {
+			verifAssert(waited == 1, "a round in which a call was told to retry later is followed by one wait")
+			verifReach("waited")
+		}
+	}
+	for i, d := range rc.sleeps {
+		verifAssert(d == (16*time.Millisecond)<<uint(i), "successive waits follow the schedule in order")
+	}
+	verifReach("paced")
+}
+
+type vRound struct {
+	retryLater  bool
+	waitsBefore int
+}
+
+type vRoundRC struct {
+	vRegionClient
+	budget int
+	rounds []vRound
+	sleeps []time.Duration
+}
+
+var vRetryEnv2 *vRoundRC
+
+func (r *vRoundRC) QueueBatch(ctx context.Context, cs []hrpc.Call) {
+	rd := vRound{waitsBefore: len(r.sleeps)}
+	for _, c := range cs {
+		o := prOK
+		if r.budget > 0 {
+			o = verifInt(0, 3)
+			if o != prOK {
+				r.budget--
+			}
+		}
+		switch o {
+		case prOK:
+			c.ResultChan() <- hrpc.RPCResult{}
+		case prRetryLater:
+			rd.retryLater = true
+			c.ResultChan() <- hrpc.RPCResult{Error: region.RetryableError{}}
+		case prServerError:
+			c.ResultChan() <- hrpc.RPCResult{Error: region.ServerError{}}
+		case prNotServing:
+			c.ResultChan() <- hrpc.RPCResult{Error: region.NotServingRegionError{}}
+		}
+	}
+	r.rounds = append(r.rounds, rd)
+}
+
+// VerifEstablishPacing: a region that keeps failing to come online — dial refused N times,
+// hbase:meta listing it on alternating servers — is re-established with waits that follow the
+// schedule (the first attempt immediate), whichever address the lookups return.
+func VerifEstablishPacing() {
+	c, e := vCluSetup()
+	var sleeps []time.Duration
+	sleepAndIncreaseBackoffOverride = func(ctx context.Context, b time.Duration) (time.Duration, error) {
+		sleeps = append(sleeps, b)
+		if b == 0 {
+			return backoffStart, nil
+		}
+		return b * 2, nil
+	}
+	e.bounce = verifBool()
+	e.refuse = verifParam("ATTEMPTS")
+	reg := vMkRegion(0, 1, nil, nil)
+	c.regions.put(reg)
+	reg.MarkUnavailable()
+	c.establishRegion(reg, "")
+	verifQuiesce()
+	sleepAndIncreaseBackoffOverride = nil
+	verifAssert(!reg.IsUnavailable(), "the region comes online once a dial succeeds")
+	verifAssert(len(sleeps) == verifParam("ATTEMPTS")+1, "one wait request per attempt")
+	for i, d := range sleeps {
+		if i == 0 {
+			verifAssert(d == 0, "the first attempt is immediate")
+		} else {
+			verifAssert(d == (16*time.Millisecond)<<uint(i-1), "successive attempts are separated by waits on the schedule")
+		}
+	}
+	verifReach("paced")
+}
+
+func vRetryLocate2(c *client, ctx context.Context, rpc hrpc.Call) (hrpc.RegionClient, error) {
+	if ctx.Err() != nil {
+		return nil, ctx.Err()
+	}
+	rpc.SetRegion(vRetryReg)
+	return vRetryEnv2, nil
+}
